@@ -66,7 +66,66 @@ def build(reg):
                  ('primary-not-repeated', 'not contains(self.flags.ports, self.flags.port)')],
         raises={'OSError': []},
         loops={0: LoopSpec(unroll=3)}))
+    T += shutdown_contracts(reg)
     return T
+
+
+def shutdown_contracts(reg):
+    """Proxy.shutdown: every component that was started is shut down exactly once, acceptors first (nothing
+    accepts any more) and listeners last, and the pid / port files that exist are removed (ghost logs
+    `downs` of component shutdowns and `removed` of os.remove calls)."""
+    import z3
+    from pyvc.vals import VSeq, VBool, VOpt, NONE
+    fl = dict(reg.classes['Flags']['fields'])
+    fl.update({'enable_ssh_tunnel': 'bool', 'threadless': 'bool', 'local_executor': 'int', 'enable_events': 'bool', 'pid_file': ('opt', 'str')})
+    reg.klass('Flags', py=None, fields=fl)
+    px = dict(reg.classes['Proxy']['fields'])
+    comps = {'metrics_subscriber': 0, 'ssh_tunnel_listener': 5, 'acceptors': 1, 'executors': 2, 'event_manager': 3}
+    for f in comps:
+        px[f] = ('opt', ('opaque', 'Comp_' + f))
+    reg.klass('Proxy', py='proxy.proxy:Proxy', fields=px)
+    for f, k in comps.items():
+        reg.contract('<component>', 'Comp_%s.shutdown' % f, self_cls='Comp_' + f, assumed=True, modifies=[], raises={},
+                     ghost_init={'downs': ('seq', 'int')}, ensures=['downs == old(downs) + [%d]' % k],
+                     note='component shutdown (joins its processes / threads): assumed to return')
+    reg.contract('proxy/core/listener/pool.py', 'ListenerPool.shutdown', self_cls='ListenerPool', assumed=True, modifies=[], raises={},
+                 ghost_init={'downs': ('seq', 'int')}, ensures=['downs == old(downs) + [4]'], note='closes every listening socket')
+    ex0 = z3.Function('existed', z3.StringSort(), z3.BoolSort())
+    reg.specfuns['existed'] = SpecFun('existed', ['str'], 'bool', define=lambda t: ex0(t))
+
+    def unopt(v):
+        return v.val if isinstance(v, VOpt) else v      # the code tests the option for None first
+
+    def exists(ex, st, args, kwargs, fr):
+        return ex.val(VBool(ex0(unopt(args[0]).t)), st)
+
+    def remove(ex, st, args, kwargs, fr):
+        cur = st.ghost['removed']
+        st.ghost['removed'] = VSeq(z3.Concat(cur.t, z3.Unit(unopt(args[0]).t)), 'str')
+        return ex.val(NONE, st)
+    for nm in ('posixpath.exists', 'genericpath.exists', 'os.path.exists'):
+        reg.externs[nm] = exists
+    for nm in ('os.remove', 'posix.remove'):
+        reg.externs[nm] = remove
+    REM = "(isnone(self.flags.remote) if False else True)"
+    REMOTE = '(self.flags.threadless and self.flags.local_executor == 0)'
+    WANT = ("old(downs) + ([0] if not isnone(self.metrics_subscriber) else empty('int')) + ([5] if self.flags.enable_ssh_tunnel else empty('int')) + [1] + "
+            "([2] if %s else empty('int')) + ([3] if self.flags.enable_events else empty('int')) + ([4] if not isnone(self.listeners) else empty('int'))" % REMOTE)
+    return [reg.contract(
+        PX, 'Proxy.shutdown', self_cls='Proxy', ghost_init={'downs': ('seq', 'int'), 'removed': ('seq', 'str')},
+        requires=[('started', 'not isnone(self.acceptors)'),
+                  ('components-match-the-flags', '(self.flags.enable_ssh_tunnel ==> not isnone(self.ssh_tunnel_listener)) and '
+                                                 '(%s ==> not isnone(self.executors)) and (self.flags.enable_events ==> not isnone(self.event_manager))' % REMOTE)],
+        modifies=[],
+        ensures=[('every-started-component-shut-down-once-acceptors-first-listeners-last', 'downs == %s' % WANT),
+                 ('port-file-gone', '(not isnone(self.listeners) and not isnone(self.flags.port_file) and len(self.flags.port_file) > 0 and existed(self.flags.port_file)) ==> '
+                                    'contains(removed, self.flags.port_file)'),
+                 ('pid-file-gone', '(not isnone(self.listeners) and not isnone(self.flags.pid_file) and len(self.flags.pid_file) > 0 and existed(self.flags.pid_file)) ==> '
+                                   'contains(removed, self.flags.pid_file)'),
+                 ('nothing-else-removed', "all_str('p', (not contains(removed[len(old(removed)):], p)) or "
+                                          "(not isnone(self.flags.port_file) and p == self.flags.port_file) or "
+                                          "(not isnone(self.flags.pid_file) and p == self.flags.pid_file))")],
+        raises={})]
 
 
 def bounded_checks(reg, tier, seed):
